@@ -67,3 +67,33 @@ def json_forms(o):
         for minimal in (False, True):
             out["sort=%s,minimal=%s" % (sort, minimal)] = list(o.as_json(sort=sort, minimal=minimal).items())
     return out
+
+
+CLONERS = ("copy.copy", "copy.deepcopy", "pickle-0", "pickle-2", "pickle-highest")
+
+
+def clone(o, how):
+    """a copy made through the object protocol, or None when that way of copying is not available for the object
+    (no statement promises that objects can be copied; what they promise holds for every object that exists)"""
+    import copy
+    import pickle
+    try:
+        if how == "copy.copy":
+            return copy.copy(o)
+        if how == "copy.deepcopy":
+            return copy.deepcopy(o)
+        proto = {"pickle-0": 0, "pickle-2": 2, "pickle-highest": pickle.HIGHEST_PROTOCOL}[how]
+        return pickle.loads(pickle.dumps(o, proto))
+    except Exception:  # noqa
+        return None
+
+
+_SUB = {}
+
+
+def trivial_subclass(C):
+    """class Sub(C): pass - nothing added, nothing overridden; its instances ARE objects of the library's class"""
+    if C not in _SUB:
+        _SUB[C] = type(str("Sub" + C.__name__), (C,), {})
+    return _SUB[C]
+
